@@ -56,6 +56,7 @@ func checkC20(c *Check) {
 	c.peerConfigVerbatim("C20.1 registry-key-consistent")
 	c.capturedVarDiscipline("C20.3 every-listener-served")
 	c.configuredHoldTimeProvenance("C20.4 options-per-call")
+	c.optionSettersVerbatim("C20.4 option-setters")
 	isExists := func(e *Expr) bool {
 		return e.Op == "ex" && len(e.Args) == 2 && e.Args[0].Op == "val" && isBoolType(e.Typ)
 	}
@@ -452,4 +453,79 @@ func (c *Check) peerConfigVerbatim(rule string) {
 			}
 		}
 	}
+}
+
+// optionSettersVerbatim: every PeerOption constructor With<X>(arg) returns an
+// option whose apply stores its argument into its field on every path,
+// unconditionally and unchanged (WithHoldTime: seconds*time.Second;
+// WithPassive: true). An option that drops or rewrites some argument values
+// (an unspecified local address "treated as unset", a port truncated to 16
+// bits) silently changes which connections are accepted or dialled.
+func (c *Check) optionSettersVerbatim(rule string) {
+	p := c.P
+	n := 0
+	for _, name := range sortedKeys(p.Funcs) {
+		top := p.Funcs[name]
+		if top.Parent() != nil || !strings.HasPrefix(name, "With") || top.Signature.Recv() != nil {
+			continue
+		}
+		res := top.Signature.Results()
+		if res.Len() != 1 || typeKey(res.At(0).Type()) != "PeerOption" {
+			continue
+		}
+		for _, cl := range top.AnonFuncs {
+			if len(cl.Params) != 1 || structNameOfPtr(cl.Params[0].Type()) != "peerOptions" {
+				continue
+			}
+			n++
+			a := NewAnalysis(p, cl)
+			a.Run()
+			o := paramExpr(cl, 0)
+			okAll := len(a.Returns) > 0 && len(a.Undecided) == 0
+			detail := ""
+			for _, r := range a.Returns {
+				st := r.State
+				stored := 0
+				for k, v := range st.mem {
+					me := st.memE[k]
+					if me == nil || me.Op != "fa" || me.Args[0].Key != o.Key {
+						continue
+					}
+					stored++
+					// the value: the captured argument itself (possibly through
+					// a value-preserving conversion), a constant, or a linear
+					// function of the argument with a constant factor
+					x := v
+					for x.Op == "conv" {
+						if !st.rangeOf(x.Args[0]).SubsetOf(typeRange(x.Typ)) {
+							okAll, detail = false, "the argument is narrowed by a conversion that can change it: "+trunc(v.Key, 60)
+						}
+						x = x.Args[0]
+					}
+					switch {
+					case x.Op == "free" || x.Op == "param":
+					case x.Op == "ld" && (x.Args[0].Op == "free" || x.Args[0].Op == "alloc"):
+					case x.Op == "const" || x.Op == "bool" || x.Op == "closure" || x.Op == "fn":
+					default:
+						if _, isC := x.IsConst(); isC {
+							break
+						}
+						l := st.linOf(v)
+						if len(l.T) == 1 && l.C == 0 {
+							break
+						}
+						okAll, detail = false, "stored value is not the argument: "+trunc(v.Key, 60)
+					}
+				}
+				if stored != 1 {
+					okAll = false
+					if detail == "" {
+						detail = fmt.Sprintf("%d fields are known to be stored on a path to return (expected exactly 1, on every path)", stored)
+					}
+				}
+			}
+			c.require(okAll, rule, name, "option stores its argument unconditionally", p.Pos(cl.Pos()), "apply sets exactly one field, on every path, to the constructor's argument "+detail)
+		}
+	}
+	c.floor(rule, n, 6, "PeerOption constructors")
 }
